@@ -1,7 +1,7 @@
 (* C01 — property theorems only (iteration-order part; the schema-globals history part is added from Glob/OpenApiState). *)
 From KV Require Import Res.MapSites Res.MapSitesProofs Gen.MapRanges.
 From KV Require Import Base.Prelude.
-From KV Require Import Glob.OpenApiState Glob.OpenApiStateProofs Glob.OpenApiHistoryProofs.
+From KV Require Import Glob.OpenApiState Glob.OpenApiStateProofs Glob.OpenApiHistoryProofs Glob.FullState.
 
 (* Every `range` over a map in the kustomize packages imported by krusty either collects keys that are
    sorted afterwards, only builds sets/maps/booleans, or is one of the hand-justified sites of Res/MapSites.v.
@@ -39,3 +39,25 @@ Theorem C01_history_partial :
                 observe e (run_history e ost0 h) b = observe e ost0 b.
 Proof. exact history_partial. Qed.
 Print Assumptions C01_history_partial.
+
+
+(* ---------- the full vector of package-level state a build can write ---------- *)
+
+(* The variables the globals translator lists as written outside initialisers are exactly these six (Gen/Globals.v):
+   a NEW written package-level variable in the kustomize packages linked into krusty.Run breaks this obligation.
+   Their treatment (modelled / not written by a build) is tabulated in Glob/FullState.v. *)
+Theorem Gen_written_globals_closed :
+  written_globals =
+  ["api/internal/plugins/builtinconfig.defaultConfig"; "api/internal/plugins/loader.registry";
+   "kyaml/fieldmeta.shortHandRef"; "kyaml/openapi.customSchema"; "kyaml/openapi.globalSchema";
+   "kyaml/openapi.kubernetesOpenAPIVersion"].
+Proof. exact written_globals_closed. Qed.
+Print Assumptions Gen_written_globals_closed.
+
+(* History independence over the full state vector (OpenAPI state machine + the once-parsed default transformer
+   configuration, of which builds only see deep copies of a compile-time constant). *)
+Theorem C01_full_state_history_independent :
+  forall e h b, env_ok e -> forallb valid_build (map gb_build h) = true -> valid_build (gb_build b) = true ->
+                gobserve e (run_ghistory e gstate0 h) b = gobserve e gstate0 b.
+Proof. exact full_state_history_independent. Qed.
+Print Assumptions C01_full_state_history_independent.
